@@ -620,7 +620,7 @@ func RunChild(replayPath, out, prop string) (int, *Replay) {
 		env = append(env, e)
 	}
 	cmd.Env = append(env, "VERIF_MODE=replay", "VERIF_REPLAY="+replayPath, "VERIF_OUT="+out, "VERIF_PROP="+prop,
-		"GORACE=halt_on_error=0 exitcode=0 suppress_equal_stacks=0 suppress_equal_addresses=0")
+		"GORACE=halt_on_error=0 exitcode=0 suppress_equal_stacks=0 suppress_equal_addresses=0 log_path="+out+".race")
 	done := make(chan error, 1)
 	if err := cmd.Start(); err != nil {
 		return ExitInternal, nil
